@@ -225,7 +225,9 @@ func Bypass(start ssa.Instruction, startBlock *ssa.BasicBlock, q PathQuery) (ssa
 				// reconstruct path
 				var path []*ssa.BasicBlock
 				cur := k
-				for {
+				visited := map[key]bool{}
+				for !visited[cur] {
+					visited[cur] = true
 					path = append([]*ssa.BasicBlock{st.b.Parent().Blocks[cur.b]}, path...)
 					p, ok := parent[cur]
 					if !ok {
